@@ -479,6 +479,16 @@ def run(ctx):
               how="copy.deepcopy(...)")
     # Study.user_attrs/system_attrs deep copy is R20.2; FrozenStudy snapshots through optuna.get_all_study_summaries use these
 
+    # a trial stored from a template shares no object with the template the caller keeps (RDB / journal serialise; the
+    # in-memory backend has to deep-copy): otherwise editing the object one added changes what the study returns
+    imc = p.func(INMEM + ".create_new_trial")
+    tprm = imc.params()[2] if len(imc.params()) > 2 else "template_trial"
+    kept = [n for n in own_nodes(imc.node) if isinstance(n, ast.Assign) and isinstance(n.value, ast.Call) and n.value.args and norm(n.value.args[0]) == tprm]
+    okc = bool(kept) and all(dotted(n.value.func) in ("copy.deepcopy", "deepcopy") for n in kept)
+    ctx.check(okc, "R20.1", imc.short, "template-deep-copied",
+              message=f"InMemoryStorage.create_new_trial stores `{norm(kept[0].value) if kept else tprm}`: the stored trial shares nested objects (values list, params / attrs dicts) with the "
+                      f"template, so modifying a trial that was read with a deep copy and then added to another study changes what that study returns",
+              how="trial = copy.deepcopy(template_trial)")
     # ------------------------------------------------------------- R20.8 study attribute dicts are replaced, not mutated
     ctx.rule("R20.8", "a study's user/system attribute dict that a storage getter hands out by reference is never mutated in place: writers "
              "replace it (copy-on-write), so the reference a reader holds - and copies outside the storage lock - is a snapshot")
